@@ -165,10 +165,21 @@ def run_case(ctx, seed, idx, tier):
         for t in ctx['samples']:
             texts.append(t)
             nts.append(True)
-    for _ in range(25):
+    for _ in range(21):
         t, nt = gen_text(rng)
         texts.append(t)
         nts.append(nt)
+    # pairs of programs whose ground terms print alike but differ in structure: a process-wide cache keyed by the printed
+    # form would make the output of one depend on whether the other was compiled before
+    pairs = [("name('smith,john').\nq :- name('smith,john').\n", "name(smith,john).\nq :- name(smith,john).\n"),
+             ("f('g(a)').\nq(X) :- X = f('g(a)').\n", "f(g(a)).\nq(X) :- X = f(g(a)).\n"),
+             ("f(a,'b,c').\n", "f(a,b,c).\n"), ("p(['a,b']).\n", "p([a,b]).\n"), ("p(f(x1),_).\n", "p(f(_),x1).\n"),
+             ("t('X', f('Y')).\n", "t(X, f(Y)).\n")]
+    pa, pb = rng.choice(pairs)
+    for t in ((pa, pb) if rng.random() < 0.5 else (pb, pa)):
+        texts.insert(rng.randrange(len(texts) + 1), t)
+        nts.append(True)
+    nts = nts[:len(texts)]
     c = {'programs': len(texts)}
     tmp = tempfile.mkdtemp(prefix='ypv-c18-')
     results = {}
